@@ -219,11 +219,15 @@ PAIR = {}
 def check_deleg(run, S, name, spec, kw):
     # code and reference roots are paired by their instantiation suffix (generic, __f32, __f64_m, ..)
     suffix = name.split('__b3', 1)[-1]
-    PAIRS_ = PAIR.setdefault(suffix, {})
-    PAIRS_[spec[1]] = name
-    if len(PAIRS_) < 2:
+    if spec[1] == 'ref':
+        run.use_root(S, name)
         return
-    PAIR_ = PAIRS_
+    # (the reference exists per scalar type; the type-relative spelling `<Basis3<f32>>::between_vectors` of the code shares it)
+    base = name.split('__b3', 1)[0].replace('between_vectors', 'ref_between_vectors') + '__b3'
+    refname = base + suffix
+    if refname not in S.roots and suffix.endswith('_p'):
+        refname = base + suffix[:-2]
+    PAIR_ = {'code': name, 'ref': refname}
     rc, rr = run.use_root(S, PAIR_['code']), run.use_root(S, PAIR_['ref'])
     if rc is None or rr is None:
         run.ob('%s:%s:present' % (PROP, name), False, rule='root-present', expected='root', found='missing')
